@@ -175,5 +175,25 @@ __CPROVER_ensures(IMP(P_IN0 && !ep->in_speech, ep->speech_end == ep->qstart_time
 __CPROVER_ensures(IMP(ep->in_speech, ep->n < EP_MAXLEN))
 __CPROVER_ensures(EP_VALS(ep))
 ;
+
+#ifndef EP_SYMBOLIC_MAXLEN
+/* ending the stream: the queued speech frames (in queue order, from slot 0 after linearisation) plus the trailing
+ * partial frame, copied right behind them INSIDE the buffer; the queue is left empty */
+const int16 *endpointer_end_stream(endpointer_t *ep, const int16 *frame, size_t nsamp, size_t *out_nsamp)
+__CPROVER_requires(WF_EP_FRESH(ep) && ep->vad != NULL && IMP(ep->in_speech, ep->n < EP_MAXLEN))
+__CPROVER_requires(__CPROVER_is_fresh(frame, sizeof(int16) * EP_FS) && __CPROVER_is_fresh(out_nsamp, sizeof(size_t)))
+__CPROVER_requires(verif_vad_rate >= 8000 && verif_vad_rate <= 48000)
+/* stream times small enough that adding one frame length is never absorbed by rounding (31 years of audio) */
+__CPROVER_requires(ep->qstart_time <= 1.0e9 && ep->frame_length >= 0.001)
+__CPROVER_assigns(ep->n, ep->pos, ep->qstart_time, ep->timestamp, ep->in_speech, ep->speech_end, ep->verif_dropped, *out_nsamp,
+                  __CPROVER_object_whole(ep->buf), __CPROVER_object_whole(ep->is_speech))
+__CPROVER_ensures(IMP(nsamp > EP_FS, __CPROVER_return_value == NULL && ep->n == __CPROVER_old(ep->n) && ep->in_speech == __CPROVER_old(ep->in_speech)))
+__CPROVER_ensures(IMP(nsamp <= EP_FS && !__CPROVER_old(ep->in_speech), __CPROVER_return_value == NULL && *out_nsamp == 0 && ep->n == __CPROVER_old(ep->n)))
+__CPROVER_ensures(IMP(nsamp <= EP_FS && __CPROVER_old(ep->in_speech), __CPROVER_return_value == ep->buf && ep->in_speech == 0 && ep->n == 0))
+/* never more than what was queued plus the trailing samples; whole frames plus (possibly) the trailing partial one */
+__CPROVER_ensures(IMP(nsamp <= EP_FS && __CPROVER_old(ep->in_speech), *out_nsamp <= (size_t)__CPROVER_old(ep->n) * EP_FS + nsamp
+                      && (*out_nsamp % EP_FS == 0 || *out_nsamp == (size_t)__CPROVER_old(ep->n) * EP_FS + nsamp)))
+;
+#endif
 #endif
 #endif
